@@ -1,10 +1,50 @@
-import Pendulum.Drv.Util
-/-! request handler for property C19 (stub until the property is built) -/
+import Pendulum.Drv.C06
+import Pendulum.Model.Range
+/-! C19 requests:
+`c19range <unit 0..7> <amount> <zrefA> <wallA> <foldA> <zrefB> <wallB> <foldB> <absolute> <limit>`
+  → `ok <n> <hash> <w0> <o0> <w1> <o1> <wlast> <olast>` (hash over all (wall, offset) pairs) | `err <Name>` when the
+  iteration ends with an exception | `err TooMany` when more than `limit` values are produced
+`c19in <zrefA> <wallA> <foldA> <zrefB> <wallB> <foldB> <absolute> <zrefX> <wallX> <foldX>` → `ok 0|1` -/
 namespace Pendulum.Drv.C19
-open Pendulum Pendulum.Drv
+open Pendulum Pendulum.Drv Pendulum.DTOps Pendulum.IntervalPD Pendulum.Range
 
-def handle (_zs : Zones) (ws : List String) : Option String :=
+def M : Int := 2305843009213693951
+
+def hashStep (h x : Int) : Int := (h * 1000003 + x % M) % M
+
+def hashVs (vs : List V) : Int := vs.foldl (fun h v => hashStep (hashStep h v.w) v.offset) 7
+
+def oks : List (Except Err V) → List V
+  | .ok v :: rest => v :: oks rest
+  | _ => []
+
+def handle (zs : Zones) (ws : List String) : Option String :=
   match ws with
+  | ["c19range", u, am, za, wa, fa, zb, wb, fb, ab, lim] => do
+    let unit ← u.toNat?
+    let amount ← am.toInt?
+    let limit ← lim.toNat?
+    let a ← C06.parseEP zs za wa fa
+    let c ← C06.parseEP zs zb wb fb
+    let iv := IntervalPD.mk false a c (ab == "1")
+    let rs := rangeIv iv unit amount (limit + 1)
+    let vs := oks rs
+    let n := vs.length
+    if n > limit then some "err TooMany" else
+    -- the loop ended: either the next candidate is beyond the end, or computing it raised
+    match (if n = 0 then Except.ok iv.start.v else stepOf iv unit (amount * n)) with
+    | .error e => some ("err " ++ e.name)
+    | .ok _ =>
+      let pick := fun (i : Nat) => match vs[i]? with
+        | some v => [v.w, v.offset]
+        | none => [0, 0]
+      some (okInts ([(n : Int), hashVs vs] ++ pick 0 ++ pick 1 ++ pick (n - 1)))
+  | ["c19in", za, wa, fa, zb, wb, fb, ab, zx, wx, fx] => do
+    let a ← C06.parseEP zs za wa fa
+    let c ← C06.parseEP zs zb wb fb
+    let x ← C06.parseEP zs zx wx fx
+    let iv := IntervalPD.mk false a c (ab == "1")
+    some (okInts [b2i (containsIv iv x.tag x.v)])
   | _ => none
 
 end Pendulum.Drv.C19
